@@ -88,7 +88,7 @@ func (raftsm *raftStateManager) ImportState(r io.Reader) error {
 	if err != nil {
 		return err
 	}
-	err = importState(r, st)
+	_, err = importState(r, st)
 	if err != nil {
 		return err
 	}
@@ -155,9 +155,14 @@ func (crdtsm *crdtStateManager) ImportState(r io.Reader) error {
 	}
 	batchingSt := st.(state.BatchingState)
 
-	err = importState(r, batchingSt)
+	n, err := importState(r, batchingSt)
 	if err != nil {
 		return err
+	}
+	if n == 0 {
+		// Nothing to commit: committing an empty batch makes the
+		// crdt datastore dereference a nil delta.
+		return nil
 	}
 
 	return batchingSt.Commit(context.Background())
@@ -185,22 +190,26 @@ func (crdtsm *crdtStateManager) Clean() error {
 	return crdt.Clean(context.Background(), crdtsm.cfgs.Crdt, store)
 }
 
-func importState(r io.Reader, st state.State) error {
+// importState adds the pins read from r to the state and returns how many
+// were added.
+func importState(r io.Reader, st state.State) (int, error) {
 	ctx := context.Background()
 	dec := json.NewDecoder(r)
+	n := 0
 	for {
 		var pin api.Pin
 		err := dec.Decode(&pin)
 		if err == io.EOF {
-			return nil
+			return n, nil
 		}
 		if err != nil {
-			return err
+			return n, err
 		}
 		err = st.Add(ctx, &pin)
 		if err != nil {
-			return err
+			return n, err
 		}
+		n++
 	}
 }
 
